@@ -243,8 +243,23 @@ theorem kc_newDateTime_counterexample_kc_tick0 :
 
 /-- `ConvertFromBinaryTime` reads the little-endian 64-bit tick count (trailing bytes ignored) -/
 theorem kc_fromBinary_reads_le (k : UInt64) (extra : Bytes) :
-    convertFromBinaryTime (putLe64 k ++ extra) = .ok (newDateTime k) := by
+    convertFromBinaryTime (putLe64 k ++ extra) =
+      .ok (if k == 0 then .at 0 (-11644473600) 0 else newDateTime k) := by
   simp only [putLe64, List.cons_append, List.nil_append, convertFromBinaryTime, le64_bytes]
+  split <;> rfl
+
+/-- **stored ticks → DateTime, all 2⁶⁴ values, zero included**: a tick count read from a blob keeps
+    its value and its time is exactly `1601-01-01 + ticks·100 ns` (a stored zero does not become "now"). -/
+theorem kc_fromBinary_exact (k : UInt64) (extra : Bytes) :
+    ∃ s n, convertFromBinaryTime (putLe64 k ++ extra) = .ok (.at k s n) ∧
+      toTime (s, n) = Spec.timeOfTicks Spec.sec1601 k.toNat := by
+  rw [kc_fromBinary_reads_le]
+  by_cases hk : k = 0
+  · subst hk
+    exact ⟨-11644473600, 0, rfl, by decide⟩
+  · have hb : (k == 0) = false := by simpa using hk
+    obtain ⟨s, n, hd, ht⟩ := kc_newDateTime_partial k (by unfold KnownBad_kc_tick0; exact hb)
+    exact ⟨s, n, by rw [hb]; simp [hd], ht⟩
 
 /-- **time → binary time**, exact for every time from 1601 whose tick count fits in `uint64`.
     (Unpatched: the function wrote Unix nanoseconds, not ticks.)
@@ -284,7 +299,9 @@ theorem kc_inverse_partial (sec nsec : Int64) (h0 : 0 ≤ nsec.toInt) (h1 : nsec
   · have := kc_fromBinary_reads_le (binaryTimeTicks sec nsec) []
     simp only [List.append_nil] at this
     unfold convertToBinaryTime
-    rw [this, hd]
+    have hb : (binaryTimeTicks sec nsec == 0) = false := by unfold KnownBad_kc_tick0 at hnz; exact hnz
+    rw [this, hb]
+    simp [hd]
   · rw [ht, hv]
     exact spec_time_ticks_time _ _ (by simp only; omega)
 
